@@ -7,11 +7,27 @@
    what the implementation did at every delivery.
    Forms: [FObject] the *unstructured.Unstructured itself; [FTombstone] the
    cache.DeletedFinalStateUnknown that client-go's DeltaFIFO.Replace makes of the object
-   when a relist no longer lists it (the harness obtains it from a real DeltaFIFO). *)
+   when a relist no longer lists it (the harness obtains it from a real DeltaFIFO).
+
+   Two ways of delivering.  [k_real] = false: the monitor is created on an empty cluster and
+   the harness calls the informer's handler methods itself.  [k_real] = true ("start" cases):
+   the objects [k_listed] (state indices) exist in the fake cluster when the monitor is
+   created (loadExistedObjects lists them: [k_cache0] is the snapshot right after, None = the
+   creation failed), then the monitor is STARTED and the real client-go shared informer
+   makes every delivery: first its replay of the existing objects, then one delivery per
+   cluster operation of the case.  For these cases the history is written down by the harness
+   from the cluster's truth - the replay as one Added per existing object carrying the object
+   AS IT IS IN THE CLUSTER, in the order in which the informer was seen to deliver (client-go
+   fixes none), then the watch event of every cluster operation - and [i_seen] records what
+   was seen of each delivery on the informer itself: the handler that ran (from the informer's
+   Added/Modified/Deleted counters) and the resource id concerned (the cache entry that was
+   replaced or removed). *)
 From Verif Require Import Common Json C08_Model C08_Spec.
 
 (* implementation's observation of one delivery *)
 Record iobs := mkI {
+  i_seen : option (evtype * N);       (* start cases: handler that ran and resource id, as seen on the
+                                         informer; None when the harness itself calls the handler *)
   i_fired : list (evtype * N);        (* fired KubeEvents: type, state index of the object they carry *)
   i_fr : option json;                 (* FilterResult computed for this delivery's object: read from
                                          the cache entry of its id after the delivery, else from the
@@ -26,6 +42,9 @@ Record case := mkCase {
   k_filter : bool;
   k_states : list (N * json);
   k_answers : list (list json * bool);
+  k_real : bool;                       (* deliveries made by the real shared informer (start case) *)
+  k_listed : list N;                   (* states that exist in the cluster when the monitor is created *)
+  k_cache0 : option (list (N * N));    (* cachedObjects right after the creation: (resource id, state index) *)
   k_history : list (evtype * N * form);
   k_obs : list iobs
 }.
@@ -62,16 +81,24 @@ Definition changes_of (c : case) : list step := map change_of (steps_of c).
 
 Definition config_of (c : case) : config := mkConfig (with_event_types (k_types c)) (k_filter c).
 
+(* the objects loadExistedObjects lists *)
+Definition listed_of (c : case) : list (N * json) := map (state_at c) (k_listed c).
+
 (* the model's observation in the implementation's vocabulary *)
+Definition idx_of (c : case) (o : json) : N := index_of_state o (k_states c) 0%N.
+
+Definition cache_view (c : case) (ch : cache) : list (N * N) :=
+  map (fun ie => (fst ie, idx_of c (e_obj (snd ie)))) ch.
+
 Definition obs_of_step (c : case) (s : dstep) (r : cache * option event) : iobs :=
-  let idx o := index_of_state o (k_states c) 0%N in
   let id := snd (fst s) in
-  mkI (match snd r with Some ev => [(ev_type ev, idx (e_obj (ev_entry ev)))] | None => [] end)
+  mkI (if k_real c then Some (fst (fst s), id) else None)
+      (match snd r with Some ev => [(ev_type ev, idx_of c (e_obj (ev_entry ev)))] | None => [] end)
       (match c_get id (fst r) with
        | Some e => e_fr e
        | None => match snd r with Some ev => e_fr (ev_entry ev) | None => None end
        end)
-      (map (fun ie => (fst ie, idx (e_obj (snd ie)))) (fst r)).
+      (cache_view c (fst r)).
 
 Fixpoint zip_obs (c : case) (h : list dstep) (rs : list (cache * option event)) : list iobs :=
   match h, rs with
@@ -79,12 +106,22 @@ Fixpoint zip_obs (c : case) (h : list dstep) (rs : list (cache * option event)) 
   | _, _ => []
   end.
 
+(* the cache after the monitor's creation: loadExistedObjects over the listed objects *)
+Definition model_start (c : case) : option cache :=
+  load_existed (jq_of c) (config_of c) (listed_of c) [].
+
+Definition model_cache0 (c : case) : option (list (N * N)) := option_map (cache_view c) (model_start c).
+
 Definition model_obs (c : case) : list iobs :=
-  zip_obs c (steps_of c) (run_d (jq_of c) (config_of c) [] (steps_of c)).
+  match model_start c with
+  | Some c0 => zip_obs c (steps_of c) (run_d (jq_of c) (config_of c) c0 (steps_of c))
+  | None => []
+  end.
 
 Definition ojson_eqb : option json -> option json -> bool := option_eqb json_eqb.
 Definition iobs_eqb (a b : iobs) : bool :=
-  list_eqb (pair_eqb evtype_eqb N.eqb) (i_fired a) (i_fired b)
+  option_eqb (pair_eqb evtype_eqb N.eqb) (i_seen a) (i_seen b)
+  && list_eqb (pair_eqb evtype_eqb N.eqb) (i_fired a) (i_fired b)
   && ojson_eqb (i_fr a) (i_fr b)
   && list_eqb (pair_eqb N.eqb N.eqb) (i_cache a) (i_cache b).
 
@@ -92,8 +129,37 @@ Definition iobs_eqb (a b : iobs) : bool :=
 Definition answers_canonical (c : case) : bool :=
   forallb (fun a => forallb canon_obj (fst a)) (k_answers c).
 
+(* ENVIRONMENT ASSUMPTION of C08_start_redelivery_silent, checked on every case: at its start
+   the shared informer re-delivers exactly the objects that exist (= were listed), each once,
+   through OnAdd: the first |k_listed| entries of the history - whose resource ids the harness
+   took from what it saw the informer deliver - are Added deliveries of the object itself and
+   their states are a permutation of [k_listed], no resource id twice.  (That the delivered
+   CONTENT is the cluster's object is part of the comparison: the cache entry after the
+   delivery is looked up among the states.)  Without existing objects or when the harness
+   delivers itself there is no replay. *)
+Fixpoint nodup_N (l : list N) : bool :=
+  match l with
+  | [] => true
+  | x :: r => negb (mem_N x r) && nodup_N r
+  end.
+
+Definition replay_ok (c : case) : bool :=
+  if k_real c then
+    let n := length (k_listed c) in
+    let head := firstn n (k_history c) in
+    Nat.eqb (length head) n
+    && forallb (fun tsf => match tsf with (Added, _, FObject) => true | _ => false end) head
+    && forallb (fun tsf => mem_N (snd (fst tsf)) (k_listed c)) head
+    && nodup_N (map (fun tsf => snd (fst tsf)) head)
+    && nodup_N (map (fun i => fst (state_at c i)) (k_listed c))
+  else match k_listed c with [] => true | _ => false end.
+
+Definition cache0_eqb : option (list (N * N)) -> option (list (N * N)) -> bool :=
+  option_eqb (list_eqb (pair_eqb N.eqb N.eqb)).
+
 Definition agrees (c : case) : bool :=
-  list_eqb iobs_eqb (model_obs c) (k_obs c) && answers_canonical c.
+  cache0_eqb (model_cache0 c) (k_cache0 c)
+  && list_eqb iobs_eqb (model_obs c) (k_obs c) && answers_canonical c && replay_ok c.
 
 Definition mismatches (cs : list case) : list N := indices_where (fun c => negb (agrees c)) cs.
 
@@ -101,12 +167,15 @@ Definition mismatches (cs : list case) : list N := indices_where (fun c => negb 
 Definition spec_obs (c : case) (o : iobs) : obs :=
   mkObs (map fst (i_fired o)) (map (fun p => (fst p, snd (state_at c (snd p)))) (i_cache o)).
 
+(* the objects that exist when the binding is enabled are known from the initial list on
+   ([P_start]; without such objects it is [P]) *)
 Definition P_case (c : case) : bool :=
-  P (jq_of c) (with_event_types (k_types c)) (k_filter c) (changes_of c) (map (spec_obs c) (k_obs c)).
+  P_start (jq_of c) (with_event_types (k_types c)) (k_filter c) (listed_of c) (changes_of c)
+          (map (spec_obs c) (k_obs c)).
 
 Definition spec_violations (cs : list case) : list N := indices_where (fun c => negb (P_case c)) cs.
 
 Definition trigger_F8 (cs : list case) : list N :=
-  indices_where (fun c => T_F8 (jq_of c) (k_filter c) (changes_of c)) cs.
+  indices_where (fun c => T_F8 (jq_of c) (k_filter c) (listed_steps (listed_of c) ++ changes_of c)) cs.
 Definition trigger_F16 (cs : list case) : list N :=
-  indices_where (fun c => T_F16 (jq_of c) (k_filter c) (changes_of c)) cs.
+  indices_where (fun c => T_F16 (jq_of c) (k_filter c) (listed_steps (listed_of c) ++ changes_of c)) cs.
